@@ -313,7 +313,12 @@ func (g *VCGen) invoke(c *ssa.CallCommon, pos token.Pos, v *ssa.Call) []SpecVal 
 		label = "invoke@" + v.Name() + ":" + c.Method.Name()
 	}
 	g.usedCallees["interface "+fc.Name] = true
-	return g.applyContract(fc, g.eng.typesPkg(fc.Pkg), names, args, resTypes, resNames, pos, label)
+	res := g.applyContract(fc, g.eng.typesPkg(fc.Pkg), names, args, resTypes, resNames, pos, label)
+	if gname, ok := g.eng.contracts.Tracks[fc.Pkg+"::"+fc.Name]; ok {
+		h := g.ghostHeap(gname)
+		g.setHeap(g.cur, h, fmt.Sprintf("(store %s %s true)", g.heapTerm(g.cur, h), recv.T))
+	}
+	return res
 }
 
 // globalFacts: declared facts about package-level variables (checked read-only elsewhere).
